@@ -3,6 +3,7 @@
 -/
 import Fc.Monitors
 import Fc.MonFun
+import Fc.MonGrp
 
 namespace Fc
 open Mon
@@ -31,7 +32,8 @@ def holdsAll (c : Case) (nch : Nat) (t : List Ev) : List (String × Bool) :=
       | .merge => [("C08", holds_C08 c.n t), ("C17", holds_C17 c.n t)]
       | .zip => [("C09", holds_C09 c.n t)]
       | .chain => [("C10", holds_C10 c.n t)]
-      | _ => [])
+      | .futGroup => [("C11", holds_C11 c.keyed nch t)]
+      | .strGroup => [("C12", holds_C12 c.keyed nch t)])
 
 def holdsText (c : Case) (nch : Nat) (t : List Ev) : String :=
   " ".intercalate ((holdsAll c nch t).map (fun p => s!"{p.1}={if p.2 then 1 else 0}"))
